@@ -17,11 +17,37 @@ class InfraError(Exception):
     pass
 
 
+class _Lock:
+    """process-wide re-entrant file lock on the Lean project (regeneration of Generated/*.lean,
+    lake build and the axiom audit of one check form one critical section)"""
+    depth = 0
+    fh = None
+
+    def close(self):
+        _Lock.depth -= 1
+        if _Lock.depth == 0 and _Lock.fh is not None:
+            _Lock.fh.close()
+            _Lock.fh = None
+
+    def __enter__(self):
+        return self
+
+    def __exit__(self, *a):
+        self.close()
+
+
 def _lock():
-    os.makedirs(os.path.join(LEAN, ".lake"), exist_ok=True)
-    f = open(os.path.join(LEAN, ".lake", "verif.lock"), "w")
-    fcntl.flock(f, fcntl.LOCK_EX)
-    return f
+    if _Lock.depth == 0:
+        os.makedirs(os.path.join(LEAN, ".lake"), exist_ok=True)
+        f = open(os.path.join(LEAN, ".lake", "verif.lock"), "w")
+        fcntl.flock(f, fcntl.LOCK_EX)
+        _Lock.fh = f
+    _Lock.depth += 1
+    return _Lock()
+
+
+def locked():
+    return _lock()
 
 
 def lake_build(targets, timeout=3000):
